@@ -6,9 +6,13 @@
    apply ([apply_steps]) and snapshot ([snapshot_steps]); a crash is a prefix [firstn k]; [recover] is
    Open (hot journal rolled back, newest file re-applied).  [Consistent d]: no hot journal and the
    database is the image of the newest file.  Process death: completed writes survive, in order.
-   WAL-mode commits, checkpoints and drops are covered by the harness oracle only (no theorem). *)
+   Model/CrashWal.v adds the write-ahead log: [wdisk], the steps of a WAL commit ([wal_tx_steps]: frames, then
+   the rename) and of a checkpoint ([ckpt_steps]: page copies, cut, optional restart), and [wrecover] (log cut
+   back to the newest file or discarded if of another generation, checkpoint, re-apply).  Between transactions
+   the log holds committed frames only (frames of rolled-back transactions are not modelled).  Drops are
+   covered by the harness oracle only. *)
 From Coq Require Import NArith List Bool.
-Require Import LF.Model.PageDB LF.Model.Crash LF.Proofs.CrashProofs.
+Require Import LF.Model.PageDB LF.Model.Crash LF.Proofs.CrashProofs LF.Model.CrashWal LF.Proofs.CrashWalProofs.
 Import ListNotations.
 Local Open Scope N_scope.
 
@@ -41,6 +45,33 @@ Theorem C05_snapshot_crash_atomic : forall (d0 : disk) (f : ltxrec) (k : nat),
   (same_image (k_db (recover d)) (k_db d0) /\ disk_pos (recover d) = disk_pos d0) \/
   (same_image (k_db (recover d)) (after_apply d0 f) /\ disk_pos (recover d) = (l_max f, l_post f)).
 Proof. exact snapshot_crash_atomic. Qed.
+
+(* a WAL-mode commit: frames of one transaction (uncommitted body, one commit frame), then the rename *)
+Theorem C05_wal_commit_crash_atomic : forall (d0 : wdisk) (img0 : file) (x0 : wltx) (sa0 : N) (fr0 body : list wframe) (c : wframe) (f : ltxrec),
+  WConsistent d0 img0 x0 sa0 fr0 ->
+  uncommitted body -> w_commit c <> 0 -> l_commit f = w_commit c ->
+  same_image (truncate (write_pages img0 (l_pages f)) (w_commit c))
+             (truncate (write_pages img0 (frame_writes (body ++ [c]))) (w_commit c)) ->
+  (forall p, f_size img0 < p <= w_commit c -> lastw p (frame_writes (body ++ [c])) <> None) ->
+  forall k,
+  let x := {| x_ltx := f; x_salt := sa0; x_end := length fr0 + length (body ++ [c]) |} in
+  let d := wrun d0 (firstn k (wal_tx_steps (body ++ [c]) x)) in
+  (same_image (wd_db (wrecover d)) img0 /\ wdisk_pos (wrecover d) = wdisk_pos d0) \/
+  (same_image (wd_db (wrecover d)) (truncate (write_pages img0 (frame_writes (body ++ [c]))) (w_commit c)) /\
+   wdisk_pos (wrecover d) = (l_max f, l_post f)).
+Proof. exact wal_commit_crash_atomic. Qed.
+
+(* a checkpoint that copies what connections see (and, before a restart, everything the log overrides):
+   every crash point recovers to the same image and position *)
+Theorem C05_checkpoint_crash_safe : forall (d0 : wdisk) (img0 : file) (x0 : wltx) (sa0 : N) (fr0 : list wframe)
+    (pages : list (N * pg)) (restart : option N),
+  WConsistent d0 img0 x0 sa0 fr0 -> fr0 <> [] ->
+  (forall p q, In (p, q) pages -> f_page (checkpoint_db (wd_db d0) fr0) p = q) ->
+  (forall p, 1 <= p <= f_size (checkpoint_db (wd_db d0) fr0) -> lastw p (frame_writes fr0) <> None -> lastw p pages <> None) ->
+  forall k,
+  let d := wrun d0 (firstn k (ckpt_steps pages (f_size (checkpoint_db (wd_db d0) fr0)) restart)) in
+  same_image (wd_db (wrecover d)) img0 /\ wdisk_pos (wrecover d) = wdisk_pos d0.
+Proof. exact checkpoint_crash_safe. Qed.
 
 (* no hot journal is left, and recovering again changes nothing: the restarted node can go on *)
 Theorem C05_recover_idempotent : forall d,
